@@ -60,7 +60,17 @@ func TestVerifC08Chain(t *testing.T) {
 			t.Fatal(err)
 		}
 		res := map[string]any{"i": i}
-		p, msg := vCatch(func() { c08ChainRun(c, res) })
+		var kindOf struct {
+			Impl bool `json:"impl"`
+		}
+		_ = json.Unmarshal(raw, &kindOf)
+		p, msg := vCatch(func() {
+			if kindOf.Impl {
+				c08ImplRun(raw, res) // sessions through the real udpIOImpl with a policy that may fail (c08impl_test.go)
+			} else {
+				c08ChainRun(c, res)
+			}
+		})
 		if p {
 			res["ok"] = false
 			res["why"] = "panic: " + msg
@@ -68,6 +78,17 @@ func TestVerifC08Chain(t *testing.T) {
 		}
 		out.Emit(res)
 	}
+}
+
+// the leaf outbound the last CheckUDP was routed to, for the message
+func c08ChainRoute(recs []string) string {
+	for i := len(recs) - 1; i >= 0; i-- {
+		if strings.HasPrefix(recs[i], "chk:") {
+			f := strings.SplitN(recs[i], ":", 3)
+			return f[1]
+		}
+	}
+	return ""
 }
 
 func c08ChainRun(c c08ChainCase, res map[string]any) {
@@ -163,6 +184,29 @@ func c08ChainRun(c c08ChainCase, res map[string]any) {
 	sm.cleanup(false)
 	if sm.Count() != 0 {
 		fail("session left in the table after cleanup")
+	}
+	// the hypothesis of the session theorems, on a third untouched instance: the per-datagram query never allows what
+	// the dial refuses (the policy oracle of a destination is what UDP() answers for a FRESH session), whichever leaf
+	// outbound the rules select for it
+	if fresh, ferr := VerifC08PipelineFactory(c.Spec); ferr == nil {
+		chkAllows := make([]bool, len(c.Dsts))
+		chkRoutes := make([]string, len(c.Dsts)) // the leaf outbound CheckUDP was routed to ("": none was reached)
+		for j, d := range c.Dsts {
+			fresh.Drain()
+			cerr := fresh.CheckUDP(d)
+			chkAllows[j] = cerr == nil
+			route := c08ChainRoute(fresh.Drain())
+			chkRoutes[j] = route
+			if cerr == nil && !allowed[j] {
+				where := "no outbound reached"
+				if route != "" {
+					where = "routed to outbound " + route
+				}
+				fail(fmt.Sprintf("CheckUDP(%q) allows a destination for which UDP(%q) is refused (%s): inside a session opened through another outbound a datagram for it passes the per-datagram check", d, d, where))
+			}
+		}
+		res["check_routes"] = chkRoutes
+		res["check_allows"] = chkAllows
 	}
 	res["steps"] = steps
 	res["allowed"] = allowed
